@@ -1,5 +1,6 @@
 (* further operations (added per property) *)
 open Model
+type string = Stdlib.String.t
 open Util
 
 let case_begin () = ()
@@ -45,8 +46,92 @@ let op_recrypt opidx impl toks =
        spec opidx (if kind = "pwd" then "C03_pwd_recrypt" else "C03_mppe_recrypt") ok (Printf.sprintf "len=%d" (List.length v))
    | _ -> ())
 
+(* ---- codec ---- *)
+let tlvs_of_tokens (toks : string list) : tlv list =
+  List.filter_map
+    (fun tk ->
+      match String.index_opt tk ':' with
+      | None -> None
+      | Some i ->
+          let t = int_of_string (String.sub tk 0 i) in
+          let v = String.sub tk (i + 1) (String.length tk - i - 1) in
+          Some { tlv_t = n_of_int t; tlv_v = bytes_of_hex v })
+    toks
+let str_of_tlvs (l : tlv list) : string =
+  String.concat "" (List.map (fun a -> Printf.sprintf " %d:%s" (int_of_n a.tlv_t) (hex_of_bytes a.tlv_v)) l)
+let str_of_msg (m : radmsg) : string =
+  Printf.sprintf "%d %d %s %d%s" (int_of_n m.m_code) (int_of_n m.m_id) (hex_of_bytes m.m_auth)
+    (if m.m_mainvalid then 1 else 0) (str_of_tlvs m.m_attrs)
+
+let is_reply_code c = (c = 2 || c = 3 || c = 11)
+
+(* the RFC-level acceptance conditions of a packet, evaluated with the Spec verifiers *)
+let authentic_packet (b : n list) (secret : n list) (rq : n list option) : bool * string =
+  let code = match b with c :: _ -> int_of_n c | [] -> -1 in
+  let lenok = List.length b >= 20 && int_of_n (length_field b) = List.length b in
+  if not lenok then (false, "length")
+  else if not (tiles (Model.skipn (nat_of_int 20) b)) then (false, "tiling")
+  else if code = 4 && not (acct_request_auth_ok md5 b secret) then (false, "acct-auth")
+  else if (match rq with Some ra -> not (response_auth_ok md5 b ra secret) | None -> false) then (false, "response-auth")
+  else
+    let authfield = if is_reply_code code then rq else None in
+    if is_reply_code code && rq = None && has_msgauth b then (false, "msgauth-unverifiable")
+    else if not (all_msgauth_ok md5 b authfield secret) then (false, "msgauth")
+    else (true, "")
+
+let op_parse opidx impl toks =
+  match toks with
+  | [ sec; rq; pkt ] ->
+      let secret = bytes_of_hex sec and b = bytes_of_hex pkt in
+      let rqa = if rq = "-" then None else Some (bytes_of_hex rq) in
+      (match buf2radmsg md5 b secret rqa with
+       | None -> pr "obs %d parse none\n" opidx
+       | Some m -> pr "obs %d parse %s\n" opidx (str_of_msg m));
+      (match impl with
+       | Some ("parse" :: "none" :: _) -> ()
+       | Some ("parse" :: _ :: _ :: _ :: inval :: _) ->
+           (* accepted (and not flagged) only if authentic in the RFC sense *)
+           let ok, why = authentic_packet b secret rqa in
+           if inval = "0" then spec opidx "codec_accept_only_if_authentic" ok why
+           else spec opidx "codec_tiling" (let o, w = authentic_packet b secret rqa in o || (w <> "length" && w <> "tiling")) why
+       | _ -> ())
+  | _ -> ()
+
+let op_ser opidx impl toks =
+  match toks with
+  | code :: id :: auth :: sec :: attrs ->
+      let m = { m_code = n_of_int (int_of_string code); m_id = n_of_int (int_of_string id); m_auth = bytes_of_hex auth;
+                m_attrs = tlvs_of_tokens attrs; m_mainvalid = false } in
+      let secret = bytes_of_hex sec in
+      (match radmsg2buf md5 m secret with
+       | Fault s -> pr "obs %d ser fault %s\n" opidx (site s)
+       | Ok None -> pr "obs %d ser -1 - -\n" opidx
+       | Ok (Some (b, a)) -> pr "obs %d ser %d %s %s\n" opidx (List.length b) (hex_of_bytes b) (hex_of_bytes a));
+      (match impl with
+       | Some [ "ser"; r; ob; _ ] when int_of_string r > 0 ->
+           let b = bytes_of_hex ob in
+           let c = int_of_string code in
+           let attrs_ok = List.for_all (fun a -> List.length a.tlv_v <= 253) m.m_attrs
+                          && List.for_all (fun a -> int_of_n a.tlv_t <> 80 || List.length a.tlv_v = 16) m.m_attrs in
+           if attrs_ok then begin
+             spec opidx "C06_wf" (wf_packet b) (Printf.sprintf "len=%d" (List.length b));
+             let signed = List.mem c [ 2; 3; 11; 5; 42; 45 ] in
+             if signed then spec opidx "C06_response_auth" (response_auth_ok md5 b m.m_auth secret) "";
+             let zero_auth = List.for_all (fun x -> int_of_n x = 0) m.m_auth in
+             (* an Accounting-Request is always serialised with a zero authenticator field (radsrv); *)
+             if c = 4 && zero_auth then spec opidx "C06_acct_auth" (acct_request_auth_ok md5 b secret) "";
+             (* only the LAST Message-Authenticator is computed by radmsg2buf; the model's messages carry one *)
+             let nma = List.length (List.filter (fun a -> int_of_n a.tlv_t = 80) m.m_attrs) in
+             if nma = 1 && (c <> 4 || zero_auth) then
+               spec opidx "C06_msgauth" (all_msgauth_ok md5 b (if signed || c = 4 then Some m.m_auth else None) secret) ""
+           end
+       | _ -> ())
+  | _ -> ()
+
 let run (opidx : int) (impl : string list option) (toks : string list) : bool =
   match toks with
   | "choose" :: rest -> op_choose opidx impl rest; true
+  | "parse" :: rest -> op_parse opidx impl rest; true
+  | "ser" :: rest -> op_ser opidx impl rest; true
   | "recrypt" :: rest -> op_recrypt opidx impl rest; true
   | _ -> false
